@@ -113,14 +113,15 @@ TB_FOLD = TB_COMMON + [
     "std::collections::HashSet modelled as a duplicate-free list in insertion order (mk_set); set payloads compared up to order",
 ]
 PROPS["C03"] = {
-    "props": ["Props/C03.v"],
+    "props": ["Props/C03.v", "Props/C03b.v"],
     "run": ["Run/FoldRun.v"],
-    "tables": ["T1", "T2v", "T3", "T3f", "T4"],
+    "tables": ["T1", "T2", "T2v", "T3", "T3f", "T4"],
     "n_quick": 300,
     "n_thorough": 3000,
     "trusted_base": TB_FOLD,
     "assumptions": [
-        "theorems cover the FOLD third of C03 (folding the lexical value of the enum formatter's output, also with derived copulas at any depth, returns the value) and the table obligations; that the lexical parser returns that lexical value (C02) and the enum parser the value (C01) is decided here by differential testing of the two real pipelines",
+        "TERM level (Props/C03b.v): both pipelines (enum parse_term; lexical parse_term then fold) return the documented meaning of every surface tree -- any spacing, plain or derived copulas -- hence agree; unconditional for ASCII and LaTeX (well-formed terms, their re-spacings, derived copulas on top), for Han under the explicit name conditions unamb (class K3 otherwise); Unicode whitespace clause for the lexical side",
+        "SENTENCE / TASK level: theorems cover the FOLD third only (Props/C03.v: folding the lexical value of the enum formatter's output returns the value) and the table obligations; that the lexical parser returns that lexical value (C02) and the enum parser the value (C01) are separate theorems, their composition above the term layer and the full `parse` entry point (item segmentation around a bare term) are decided here by differential testing of the two real pipelines",
         "Rust f64 Display/FromStr round trip on numbers in [0,1] is a hypothesis (H_rt) of C03_fold_lex_of_narsese",
         "known classes K1-K3 (inherent ambiguities of the surface syntax, listed under C01) are filtered from the text stream; K1 reappears as C03_fold_K1_witness",
     ],
